@@ -145,7 +145,8 @@ CHECKS = {
          "request's response. "
          "Also proved (Api/ApiLive.v): a non-blocking request issued while the link is up and no message is being sent writes its first "
          "fragment in that very step whatever the state of the blocking lock; in every reachable state the lock queues/holders are "
-         "consistent with the requests' phases.",
+         "consistent with the requests' phases; the blocking lock's queue is always in issue order (Api/ApiFifo.v), so FIFO hand-over "
+         "is first-come first-served.",
          TB + "PARTIAL w.r.t. the runtime only: quiescent-point injection; asyncio semantics modelled.",
          "Coq proof (trace invariant + state invariant) + differential correspondence", "7 C14"),
  "C20": ("Theorems: after close() / loss the link is absent and stays absent; a request issued then is refused in the same step; the "
